@@ -43,14 +43,33 @@ TRACE_LINE = {"main": "call vmod.main", "p1": "call vmod/p1.Marks", "p2": "call 
 
 MAIN_GO = '''package main
 
-import "vmod/p1"
+import (
+	"reflect"
+
+	"vmod/p1"
+	"vmod/uvs"
+)
 
 var xmain = "x0"
+
+type greeter struct{ n int }
+
+var keepP *greeter
+var keepS []greeter
+var keepM map[string]greeter
+var keepA [3]greeter
 
 func main() {
 	println("M", "main", "main/src", srcMain)
 	println("M", "main", "main/x", xmain)
 	println("M", "main", "tags", tagv)
+	// types looked up through reflection: the entry module then carries the list of types reflection may have to find
+	// (its order must not depend on the run: the two clean builds are compared byte for byte)
+	_, _, _, _ = keepP, keepS, keepM, keepA
+	uvs.Keep()
+	t := reflect.TypeOf(greeter{41})
+	println("M", "main", "refl", reflect.PointerTo(t).String(), reflect.SliceOf(t).String(),
+		reflect.MapOf(reflect.TypeOf(""), t).String(), reflect.ArrayOf(3, t).String())
 	p1.Marks()
 }
 '''
@@ -86,6 +105,33 @@ func Marks() {
 %(dep)s}
 '''
 
+# binding package with an order-sensitive link line: two builds of libval.so, the directory named first wins
+P3_GO = '''package p3
+
+import _ "unsafe"
+
+const LLGoPackage = "link: -L%(root)s/libs/override -L%(root)s/libs/base -lval"
+
+//go:linkname Get C.demo_val
+func Get() int32
+'''
+
+# p2's build-tag marker does not come from a tag-selected Go file but from a tag-conditional #cgo line: the set of files
+# of the package is the same with and without the tag
+P2_TAGC = '''package p2
+
+/*
+#cgo vt CFLAGS: -DC13VT=1
+#ifndef C13VT
+#define C13VT 0
+#endif
+static int c13vt(void) { return C13VT; }
+*/
+import "C"
+
+var tagv = int(C.c13vt())
+'''
+
 
 def file_content(inp, ver):
     """content of a file input at version ver; the length does not depend on ver (ver < 900)"""
@@ -108,11 +154,38 @@ def gen_module(d):
     for p in PKGS:
         pre = "" if p == "main" else p + "/"
         pk = "main" if p == "main" else p
+        if p == "p2":
+            files["p2/tagc.go"] = P2_TAGC
+            continue
         files[pre + "tag_on.go"] = "//go:build vt\n\npackage %s\n\nconst tagv = 1\n" % pk
         files[pre + "tag_off.go"] = "//go:build !vt\n\npackage %s\n\nconst tagv = 0\n" % pk
     files["p1/p1.go"] = PKG_GO % {"p": "p1", "imp": '\t"vmod/p2"\n',
                                   "dep": '\tprintln("M", "p1", "p2/src", p2.Src)\n\tp2.Marks()\n'}
-    files["p2/p2.go"] = PKG_GO % {"p": "p2", "imp": "", "dep": ""}
+    files["p2/p2.go"] = PKG_GO % {"p": "p2", "imp": '\t"vmod/p3"\n', "dep": '\tprintln("M", "p2", "link", p3.Get())\n'}
+    files["p3/p3.go"] = P3_GO % {"root": d}
+    # the entry package uses reflect: llgo then keeps its libuv wrappers, whose uv_* functions the sandbox's stub libuv
+    # lacks; a package of the module supplies trapping weak definitions (compiled and cached like any other package)
+    from . import c15
+    syms = set()
+    if os.path.isdir(c15.UVSYMS_DIR):
+        for fn in os.listdir(c15.UVSYMS_DIR):
+            if fn.endswith(".go"):
+                syms |= set(re.findall(r"C\.(uv_[a-z_0-9]+)", open(os.path.join(c15.UVSYMS_DIR, fn), errors="replace").read()))
+    files["uvs/uvs.go"] = ('package uvs\n\nimport _ "unsafe"\n\nconst LLGoFiles = "_c/uv.c"\n\n//go:linkname keep C.verif_uvs_keep\n'
+                           'func keep() int32\n\nfunc Keep() int32 { return keep() }\n')
+    files["uvs/_c/uv.c"] = ("".join("__attribute__((weak)) void %s(void) { __builtin_trap(); }\n" % x for x in sorted(syms))
+                            + "int verif_uvs_keep(void) { return 0; }\n")
+    for sub, val in (("base", 1), ("override", 2)):
+        ld = os.path.join(d, "libs", sub)
+        os.makedirs(ld, exist_ok=True)
+        csrc = os.path.join(ld, "val.c")
+        with open(csrc, "w") as f:
+            f.write("int demo_val(void) { return %d; }\n" % val)
+        # shared objects: llgo adds an -rpath for every -L in the order of the link line, so the directory named first
+        # wins at link time and at run time
+        r = subprocess.run(["cc", "-shared", "-fPIC", "-o", os.path.join(ld, "libval.so"), csrc], capture_output=True, text=True)
+        if r.returncode != 0:
+            raise C.Undecided("cannot build libval.so for the link-order marker: %s" % (r.stdout + r.stderr)[-500:])
     for inp, path in FILE_OF.items():
         files[path] = file_content(inp, 0)
     C.write_module(d, files, modname="vmod")
@@ -234,6 +307,7 @@ def do_build(ctx, moddir, cache, tmp, out, val, driver, timeout=1800):
     gocache, lockf = acquire_gocache(ctx)
     try:
         cmd, env, shown = build_cmd(ctx, moddir, cache, tmp, out, val, driver, gocache)
+
         if os.path.exists(out):
             os.remove(out)
         t0 = time.time()
@@ -768,6 +842,21 @@ def check(chk):
                        {"package": pkg, "difference": what, "config": a,
                         "how": "generated module built twice with `llgo build` into two empty caches"})
         chk.cov["evaluations"] += stats["archives"] + stats["manifests"]
+        # the entry package is never cached: its code is compared through the linked executables
+        ea, eb = os.path.join(rd, "out-" + a), os.path.join(rd, "out-" + b)
+        if not (os.path.exists(ea) and os.path.exists(eb)):
+            raise C.Undecided("Repro: executables of the clean builds %s/%s are missing" % (a, b))
+        da, db = open(ea, "rb").read(), open(eb, "rb").read()
+        stats["executable_bytes"] = len(da)
+        stats["executables_identical"] = da == db
+        chk.cov["evaluations"] += 1
+        if da != db:
+            first = next((i for i in range(min(len(da), len(db))) if da[i] != db[i]), min(len(da), len(db)))
+            chk.reject("repro:executable", "two clean builds of the same sources into two empty caches link different executables "
+                       "(%d vs %d bytes, first difference at offset %d): the code of the entry package (never cached) differs "
+                       "although every cached archive is the same" % (len(da), len(db), first),
+                       {"config": a, "sizes": [len(da), len(db)], "first_difference": first,
+                        "how": "generated module built twice with `llgo build` into two empty caches; executables compared byte for byte"})
     # one key, one code - also across programs: what the Python-calling program stored under keys the module's build uses
     if have_py:
         diffs, stats = compare_caches(caches["A"], caches["PY"], common_only=True)
